@@ -7,7 +7,7 @@ use serde_json::{json, Value};
 pub const DEF: PropDef = PropDef {
     id: "C05",
     level: "exploration",
-    rule: "complete enumeration of programs = fixed prelude (global x, helper function yod) + function `zed takes u` whose body is every sequence of 1..2 (thorough 1..3) statements of a 22-statement body alphabet (locals, parameter mutation, global update, returns at every depth, recursion, nested call, pronoun read/write, array parameter mutation) + every sequence of 1..2 (with one-statement bodies: 1..3) statements of a 29-statement caller alphabet (calls in every position, wrong arity, calling a variable / unknown name, leaked locals, block locals, shadowing, side-effecting arguments, arrays by value, pronouns after blocks and calls); plus the pronoun-after-naming family: 38 statements that name several variables (subscript reads, operators, short-circuit, lists, every statement kind with a destination, calls, conditions of if / while / until) x 7 pronoun uses, at top level and inside a function; outcome and output compared with the reference interpreter under both scoping disciplines; non-trivial = judged (not skipped as unspecified); distinct = distinct program text",
+    rule: "complete enumeration of programs = fixed prelude (global x, helper function yod) + function `zed takes u` whose body is every sequence of 1..2 (thorough 1..3) statements of a 22-statement body alphabet (locals, parameter mutation, global update, returns at every depth, recursion, nested call, pronoun read/write, array parameter mutation) + every sequence of 1..2 (with one-statement bodies: 1..3) statements of a 38-statement caller alphabet (calls in every position, wrong arity, calling a variable / unknown name, leaked locals, block locals, shadowing, side-effecting arguments, arrays by value, pronouns after blocks and calls); plus the pronoun-after-naming family: 38 statements that name several variables (subscript reads, operators, short-circuit, lists, every statement kind with a destination, calls, conditions of if / while / until) x 7 pronoun uses, at top level and inside a function; outcome and output compared with the reference interpreter under both scoping disciplines; non-trivial = judged (not skipped as unspecified); distinct = distinct program text",
     assumptions: &[
         "programs on which lexical and dynamic scoping differ (callee touching a caller's non-global local) are skipped as U-scope; pronoun uses whose referent depends on unspecified evaluation order are skipped as U-pronoun",
         "reference interpreter written from the property text",
@@ -71,6 +71,17 @@ pub const MAIN: &[&str] = &[
     "mk takes k\nrock r with k, k\ngive back r\n\nput mk taking 5 into w\nrock w with 6\nsay w\nsay mk taking 1\nsay r\n",
     "Zed Yod takes the zed\ngive back the zed plus 1\n\nsay Zed Yod taking 4\nsay ZED YOD taking x\n",
     "outer takes k\ninner takes j\ngive back j times 2\n\ngive back inner taking k\n\nsay outer taking 4\nsay inner taking 1\n",
+    // a parameter named like a function hides it inside the body only
+    "hide takes yod\ngive back yod taking 1\n\nsay hide taking 5\n",
+    "hide takes yod\ngive back yod plus 1\n\nsay hide taking 5\nsay yod taking 1\n",
+    "own takes own\ngive back own\n\nsay own taking 3\nsay own taking 4\n",
+    "hide takes zed\nsay zed\ngive back yod taking zed\n\nsay hide taking 5\nsay zed taking 1\n",
+    // every wrong arity, with parameters the body never reads or that exist outside
+    "two takes k, j\nsay k\ngive back k\n\nsay two taking 1\n",
+    "two takes k, x\ngive back k plus x\n\nsay two taking 5\nsay x\n",
+    "two takes k, j\ngive back k\n\nsay two taking 1, 2, 3\n",
+    "tri takes k, j, i\ngive back k\n\nsay tri taking 1, 2\nsay 7\n",
+    "tri takes k, j, i\nput 9 into i\ngive back k\n\nput 1 into i\nsay tri taking 1, 2\nsay i\n",
 ];
 
 pub const PRELUDE: &str = "put 1 into x\nyod takes k\nput k plus 1 into s\ngive back s\n\n";
